@@ -184,3 +184,13 @@ Definition chk_copy (c : (bool * Z * Z * Z * Z * Z) * (Z * Z * bool)) : bool :=
   | CDone it w => negb capped && (it =? calls) && (w =? written)
   | CFuel w => capped && (w =? written)
   end.
+
+(* ---- X11 setup block ----------------------------------------------------------------------- *)
+(* (remote cookie, local cookie, chunks) -> observed (bytes passed to the X server, bytes written back to the
+   channel, EOF written back?) *)
+Definition chk_x11 (c : (bytes * bytes * list bytes) * (bytes * bytes * bool)) : bool :=
+  let '((remote, local, chunks), (fwd, reply, eof)) := c in
+  match x_run remote local x11_init chunks 0 with
+  | None => false
+  | Some (s, _) => zlist_eqb (xfwd s) fwd && zlist_eqb (xreply s) reply && Bool.eqb (xeof s) eof
+  end.
